@@ -458,10 +458,17 @@ def mpf_cmp_d (f : F) (d : Nat) : Option Int :=
 /-- mpf_cmp_z (mpf/cmp_z.c:33-45) -/
 def mpf_cmp_z (u : F) (v : Z) : Int := mpf_cmp u ⟨v.size, v.size.natAbs, v.d⟩
 
-/-- mpf_get_d (mpf/get_d.c:25-38); `(EXP - abs_size) * 64` is computed in `long` -/
+/-- mpf_get_d (mpf/get_d.c:25-46).  The limb exponent EXP - abs_size is scaled to a bit exponent with
+    saturation (the product need not fit a `long`): mpn_get_d then returns infinity resp. zero. -/
 def mpf_get_d (f : F) : Nat :=
-  if f.size = 0 then 0 else
-  mpn_get_d f.d f.size ((f.exp - f.size.natAbs) * 64)
+  if f.size = 0 then 0 else                                             -- :32-33
+  let abs_size := f.size.natAbs                                         -- :35
+  let exp : Int := f.exp - abs_size                                     -- :36
+  let exp : Int :=
+    if exp > LONG_MAX / 64 then LONG_MAX                                -- :39-40
+    else if exp < LONG_MIN / 64 then LONG_MIN / 2                       -- :41-42
+    else exp * 64                                                       -- :44
+  mpn_get_d f.d f.size exp                                              -- :45
 
 /-- mpf_get_d_2exp (mpf/get_d_2exp.c:29-59) -/
 def mpf_get_d_2exp (f : F) : Nat × Int :=
